@@ -248,6 +248,10 @@ def _compile_files_cache(filenames,
                          encoding,
                          cache_dir,
                          numeric_enums):
+    # The key covers everything the compiled specification depends on:
+    # the codec, the contents of each file (length prefixed, as the same
+    # bytes split differently over the files are parsed differently)
+    # and the remaining compile options.
     key = [codec.encode('ascii')]
 
     if isinstance(filenames, str):
@@ -255,8 +259,16 @@ def _compile_files_cache(filenames,
 
     for filename in filenames:
         with open(filename, 'rb') as fin:
-            key.append(fin.read())
+            data = fin.read()
 
+        key.append('{}:'.format(len(data)).encode('ascii'))
+        key.append(data)
+
+    choices = sorted([(location, sorted(choices.items(), key=repr))
+                      for location, choices
+                      in (any_defined_by_choices or {}).items()],
+                     key=repr)
+    key.append(repr((choices, encoding, bool(numeric_enums))).encode('utf-8'))
     key = b''.join(key)
     cache = diskcache.Cache(cache_dir)
 
@@ -359,9 +371,10 @@ def compile_files(filenames,
 
     `cache_dir` specifies the compiled files cache location in the
     file system. Give as ``None`` to disable the cache. By default the
-    cache is disabled. The cache key is the concatenated contents of
-    given files and the codec name. Using a cache will significantly
-    reduce the compile time when recompiling the same files. The cache
+    cache is disabled. The cache key is the contents of given files,
+    the codec name and the other compile options. Using a cache will
+    significantly reduce the compile time when recompiling the same
+    files. The cache
     directory is automatically created if it does not exist. Remove
     the cache directory `cache_dir` to clear the cache.
 
